@@ -17,6 +17,47 @@ inductive Tok
 abbrev TS := List Tok
 
 mutual
+def Tok.decEq : (x y : Tok) → Decidable (x = y)
+  | .ident a, .ident b => if h : a = b then isTrue (by rw [h]) else isFalse (by intro e; cases e; exact h rfl)
+  | .lit a, .lit b => if h : a = b then isTrue (by rw [h]) else isFalse (by intro e; cases e; exact h rfl)
+  | .punct c ja, .punct c' jb =>
+    if h : c = c' then
+      if h2 : ja = jb then isTrue (by rw [h, h2]) else isFalse (by intro e; cases e; exact h2 rfl)
+    else isFalse (by intro e; cases e; exact h rfl)
+  | .group d a, .group e b =>
+    if h : d = e then
+      match Tok.decEqList a b with
+      | isTrue h2 => isTrue (by rw [h, h2])
+      | isFalse h2 => isFalse (by intro e'; cases e'; exact h2 rfl)
+    else isFalse (by intro e'; cases e'; exact h rfl)
+  | .ident a, .punct c' jb => isFalse (by intro h; cases h)
+  | .ident a, .lit b => isFalse (by intro h; cases h)
+  | .ident a, .group e b => isFalse (by intro h; cases h)
+  | .punct c ja, .ident b => isFalse (by intro h; cases h)
+  | .punct c ja, .lit b => isFalse (by intro h; cases h)
+  | .punct c ja, .group e b => isFalse (by intro h; cases h)
+  | .lit a, .ident b => isFalse (by intro h; cases h)
+  | .lit a, .punct c' jb => isFalse (by intro h; cases h)
+  | .lit a, .group e b => isFalse (by intro h; cases h)
+  | .group d a, .ident b => isFalse (by intro h; cases h)
+  | .group d a, .punct c' jb => isFalse (by intro h; cases h)
+  | .group d a, .lit b => isFalse (by intro h; cases h)
+def Tok.decEqList : (x y : List Tok) → Decidable (x = y)
+  | [], [] => isTrue rfl
+  | [], _ :: _ => isFalse (by intro h; cases h)
+  | _ :: _, [] => isFalse (by intro h; cases h)
+  | a :: as, b :: bs =>
+    match Tok.decEq a b with
+    | isTrue h =>
+      match Tok.decEqList as bs with
+      | isTrue h2 => isTrue (by rw [h, h2])
+      | isFalse h2 => isFalse (by intro e; cases e; exact h2 rfl)
+    | isFalse h => isFalse (by intro e; cases e; exact h rfl)
+end
+
+instance : DecidableEq Tok := Tok.decEq
+
+mutual
 def Tok.beq : Tok → Tok → Bool
   | .ident a, .ident b => a == b
   | .punct a ja, .punct b jb => a == b && ja == jb
